@@ -8,7 +8,10 @@
    order.  Each step carries the value of the clock when it runs; only the
    *Clock steps read it.  fstep_v V / fafter_v V / fouts_v V are the semantics
    of variant V (ffixed: setTxnVersion re-checks the anchor under the write
-   lock — the code the suite "fine" is checked against; fhead: it does not).
+   lock — the code the suite "fine" is checked against, /repo since fix-F-C11a
+   was applied; fhead: it does not — the code BEFORE that fix, kept only for the
+   refutation below.  Fine.fhead has nothing to do with Failsafe.ehead, which
+   is the unmodified code of the entry points and the PROVED variant there).
 
    Proofs are in FineProofs.v. *)
 From Coq Require Import List ZArith Bool Lia Sorted.
